@@ -741,6 +741,15 @@ inline Scene gen_plain_scene(int maxw, int maxh) {
           s.bits.h = std::min(s.bits.h, 60);
         }
         pinned = true;  // the request's source origin is pinned to (4, 2) by the caller
+      } else if (coin(18)) {
+        // the first sample exactly on (or one unit beside) a pixel boundary left of, at, or inside the image: the scaled
+        // fast paths split each scanline into padding and image parts with integer divisions that must agree with the
+        // per-pixel rule on such ties (seeded C02n)
+        int64_t K = R(-6, 3);
+        int64_t delta = pick<int64_t>({0, 1, -1, 2, 32768, 32769, 32767});
+        s.m[2] = K * 65536 + delta - s.m[0] * 4 - s.m[0] / 2;
+        if (coin(60)) s.repeat = 0;
+        pinned = true;
       } else if (coin(8)) {
         // very wide sources sampled with a large step from far left of the image: the fixed-point bounds arithmetic of
         // the scaled fast paths (pad/none scanline bounds) works with sums beyond 2^31 units here, while every sample
